@@ -11,7 +11,10 @@ User records (one global list, appended under the recorder's lock):
     ["user", thread, unit, "exit", null]                   the script completed normally
 
 unit = ["fx", primary name, "setup"|"teardown"] | ["hook", suite path, hook, test path|null] | ["body", test path],
-and for the script of a `thread` act at index i of unit U: U + ["th", i] (recorded under the child's thread int).
+and for the script of a `thread` act at index i of unit U: U + ["th", i] (recorded under the child's thread int);
+for the inner script of an `attachw` act (`with lcc.prepare_attachment(..):`) at index i of unit U: U + ["blk", i],
+recorded by the SAME thread, nested inside U's records (enter … exit|raise:<kind> of the block, then U goes on — or,
+when the block was left by an exception, U's own "raise:<kind>" record follows: the exception leaves U too).
 
 Fixture value tokens: "<primary name>@<serial>" where serial counts the evaluations of that fixture FUNCTION over
 the run (1-based, allocated together with the `enter` record of the setup unit, so the n-th setup-enter record of
@@ -25,6 +28,22 @@ import threading
 import lemoncheesecake.api as lcc
 
 _RAISES = {"exc": Exception, "AbortTest": lcc.AbortTest, "AbortSuite": lcc.AbortSuite, "AbortAllTests": lcc.AbortAllTests}
+
+
+# project-defined exception types derived from the framework's (a `raise` act with "sub": true)
+class TestGivesUp(lcc.AbortTest):
+    pass
+
+
+class SuiteUnusable(lcc.AbortSuite):
+    pass
+
+
+class EnvironmentDown(lcc.AbortAllTests):
+    pass
+
+
+_SUB_RAISES = {"AbortTest": TestGivesUp, "AbortSuite": SuiteUnusable, "AbortAllTests": EnvironmentDown}
 
 
 def unit_str(unit):
@@ -96,7 +115,9 @@ class Interp:
         msg = "%s#%d" % (unit_str(unit), i)
         if a == "raise":
             self.user(unit, "raise:" + act["kind"], None)
-            raise _RAISES[act["kind"]]("boom " + msg)
+            exc = (_SUB_RAISES if act.get("sub") else _RAISES)[act["kind"]]("boom " + msg)
+            exc._lccverif_kind = act["kind"]
+            raise exc
         if a == "gate":
             # the caller of run_suites is never held: the controller's quiescence test needs it in the dispatch loop
             if threading.current_thread() is not self.main_thread:
@@ -113,6 +134,30 @@ class Interp:
             th.start()
             th.join()
             return
+        if a == "attachw":
+            # `with lcc.prepare_attachment(..) as path:` around an inner script run by this very thread
+            child_unit = list(unit) + ["blk", i]
+            try:
+                cm = lcc.prepare_attachment("a%d.txt" % i, msg)     # public api: `_interruptible`
+            except lcc.AbortTest as e:
+                e._lccverif_kind = "interrupted"
+                self.user(unit, "raise:interrupted", None)
+                raise
+            try:
+                with cm as path:
+                    with open(path, "w") as fh:
+                        fh.write("content of " + msg)
+                    self.run_unit(child_unit, act["script"], {})
+            except BaseException as e:
+                kind = getattr(e, "_lccverif_kind", None)
+                if kind is None:
+                    # not raised by a `raise` act / an interrupted api act of the inner script: the context manager
+                    # (or the file system) raised by itself
+                    self.api_errors.append([unit, i, type(e).__name__, str(e)])
+                    kind = "interrupted"
+                self.user(unit, "raise:" + kind, None)
+                raise
+            return
         try:
             if a == "log":
                 {"debug": lcc.log_debug, "info": lcc.log_info, "warn": lcc.log_warning, "error": lcc.log_error}[act["level"]](msg)
@@ -126,10 +171,12 @@ class Interp:
                 lcc.save_attachment_content("content of " + msg, "a%d.txt" % i, msg)
             else:
                 raise ValueError("unknown act " + a)
-        except lcc.AbortTest:
+        except lcc.AbortTest as e:
+            e._lccverif_kind = "interrupted"
             self.user(unit, "raise:interrupted", None)
             raise
         except Exception as e:
+            e._lccverif_kind = "interrupted"
             self.api_errors.append([unit, i, type(e).__name__, str(e)])
             self.user(unit, "raise:interrupted", None)
             raise
